@@ -358,3 +358,115 @@ def _raises(th):
         return False
     except LErr:
         return True
+
+
+# ------------------------------------------------------------------ string table index widths (F_SHORT_STRING / F_STRING)
+@family('manystrings')
+def fam_manystrings(tier):
+    n = 300
+    table = b'({ ' + b', '.join(b'"s%03d"' % k for k in range(n)) + b' })'
+    sw = b' '.join(b'case %d: return "s%03d";' % (k, k) for k in range(n))
+    for k in (0, 1, 62, 63, 64, 254, 255, 256, 257, 299):
+        g = Group('literal', 'string-table', 's', ('V', canon(b's%03d' % k)), b'the %dth of 300 string literals of one program' % k)
+        g.add('computed', b'mixed @F(int k) { return sprintf("s%03d", k); }', b'i%d' % k)
+        g.add('table', b'mixed @F(int k) {\n  mixed *t = ' + table.replace(b', "s', b',\n "s') + b';\n  return t[k];\n}', b'i%d' % k)
+        yield g
+
+
+# ------------------------------------------------------------------ array set operators: - and & go through a sorted "alist"
+SET_INTS = [0, 1, 1 << 31, 1 << 32, (1 << 32) + 1, -(1 << 32), INT_MAX, INT_MIN]
+SET_OTHER = [0.0, 0.5, 1.5, 2.5, -0.5, b'a', b'b']
+
+
+def set_arrays(elems):
+    out = [[e] for e in elems]
+    out += [[a, b] for a in elems for b in elems if not (type(a) == type(b) and a == b)]
+    return out
+
+
+def arr_sub(a, b):
+    return [x for x in a if not any(type(x) == type(y) and x == y for y in b)]
+
+
+def arr_and(a, b):
+    return {x: 1 for x in a if any(type(x) == type(y) and x == y for y in b)}
+
+
+@family('arrayset')
+def fam_arrayset(tier):
+    ints = set_arrays(SET_INTS)
+    others = set_arrays(SET_OTHER + [0, 1 << 32])
+    for pool, tag in ((ints, 'int'), (others, 'mixed')):
+        for a in pool:
+            for b in pool:
+                A, B = lit(a), lit(b)
+                big_ = ':i64' if big(*[x for x in a + b if isinstance(x, int)]) else ''
+                g = Group('arrayset', 'sub', tag + big_, ('V', canon(arr_sub(a, b))), A + b' - ' + B)
+                g.add('runtime', b'mixed @F() { mixed a = ' + A + b'; mixed b = ' + B + b'; return a - b; }')
+                g.add('loop', b'mixed @F() { mixed *a = ' + A + b'; mixed *b = ' + B + b'; mixed *r = ({}); mixed x, y; int f; '
+                      b'foreach (x in a) { f = 0; foreach (y in b) if (typeof(x) == typeof(y) && x == y) f = 1; if (!f) r += ({ x }); } return r; }')
+                g.add('typed', b'mixed @F() { mixed *a = ' + A + b'; mixed *b = ' + B + b'; return a - b; }')
+                g.add('folded', b'mixed @F() { return ' + A + b' - ' + B + b'; }')
+                g.add('opassign', b'mixed @F() { mixed *a = ' + A + b'; mixed *b = ' + B + b'; a -= b; return a; }')
+                g.add('global', b'mixed @F() { ga = ' + A + b'; gm = ' + B + b'; return ga - gm; }')
+                g.add('member_array', b'mixed @F() { mixed *a = ' + A + b'; mixed *b = ' + B + b'; mixed *r = ({}); mixed x; '
+                      b'foreach (x in a) if (member_array(x, b) == -1) r += ({ x }); return r; }')
+                yield g
+                if any(isinstance(x, float) and x == 0 for x in a + b) and any(isinstance(x, int) and x == 0 for x in a + b):
+                    continue        # the result is shown as a mapping, and 0 and 0.0 are not both usable as keys there
+                g = Group('arrayset', 'and', tag + big_, ('V', canon(arr_and(a, b))), A + b' & ' + B)
+                cnt = b'foreach (x in t) r[x] = 1; return r; }'
+                dcl = b'mapping r = ([]); mixed x; mixed *t; '
+                g.add('runtime', b'mixed @F() { mixed a = ' + A + b'; mixed b = ' + B + b'; ' + dcl.replace(b'mixed *t', b'mixed t') + b't = a & b; ' + cnt)
+                g.add('loop', b'mixed @F() { mixed *a = ' + A + b'; mixed *b = ' + B + b'; mapping r = ([]); mixed x, y; '
+                      b'foreach (x in a) foreach (y in b) if (typeof(x) == typeof(y) && x == y) r[x] = 1; return r; }')
+                g.add('typed', b'mixed @F() { mixed *a = ' + A + b'; mixed *b = ' + B + b'; ' + dcl + b't = a & b; ' + cnt)
+                g.add('folded', b'mixed @F() { ' + dcl + b't = ' + A + b' & ' + B + b'; ' + cnt)
+                g.add('swapped', b'mixed @F() { mixed *a = ' + A + b'; mixed *b = ' + B + b'; ' + dcl + b't = b & a; ' + cnt)
+                yield g
+
+
+# ------------------------------------------------------------------ x op= x: both operands are the same value held by one variable
+@family('selfop')
+def fam_selfop(tier):
+    vals = [[1, 2, 3], [1, b'a'], [7], [], {1: 2, b'a': 3}, {}, b'ab', b'abc', b'', MB, Buf(b'\x01\x02\x03'), Buf(b''),
+            0, 1, 7, -1, 1 << 31, 1 << 32, INT_MAX, INT_MIN, 0.5, -1.5, 1e10]
+    for v in vals:
+        t = tname(v)
+        V = lit(v)
+        T = TDECL[t].encode()
+        ops = {'a': ('+', '-'), 'm': ('+',), 's': ('+',), 'b': ('+',), 'f': ('+', '-', '*', '/'),
+               'i': ('+', '-', '*', '/', '%', '&', '|', '^', '<<', '>>')}[t]
+        for op in ops:
+            o = op.encode()
+            ref = ref_of(lambda: binop(op, v, v))
+            if t == 'm' and v:
+                ref = ('V', canon(v))           # the union of a mapping with itself
+            g = Group('selfop', OPNAME[op], t + (':i64' if big(v) else ''), ref, b'x ' + o + b'= x  (x = ' + V + b')')
+            g.add('assign', b'mixed @F() { ' + T + b' x = ' + V + b'; x = x ' + o + b' x; return x; }')
+            g.add('opassign', b'mixed @F() { ' + T + b' x = ' + V + b'; x ' + o + b'= x; return x; }')
+            g.add('opassign-mixed', b'mixed @F() { mixed x = ' + V + b'; x ' + o + b'= x; return x; }')
+            g.add('opassign-value', b'mixed @F() { mixed x = ' + V + b'; mixed r; r = (x ' + o + b'= x); return r; }')
+            g.add('opassign-global', b'mixed @F() { gm = ' + V + b'; gm ' + o + b'= gm; return gm; }')
+            g.add('opassign-elem', b'mixed @F() { mixed *w = ({ ' + V + b' }); w[0] ' + o + b'= w[0]; return w[0]; }')
+            g.add('opassign-mapelem', b'mixed @F() { mapping w = ([ "k": ' + V + b' ]); w["k"] ' + o + b'= w["k"]; return w["k"]; }')
+            g.add('opassign-copy', b'mixed @F() { mixed x = ' + V + b'; mixed y = ' + V + b'; x ' + o + b'= y; return x; }')
+            g.add('opassign-param', b'mixed @F_h(mixed x) { x ' + o + b'= x; return x; }\nmixed @F() { return @F_h(' + V + b'); }')
+            g.add('opassign-built', b'mixed @F() { mixed x = ' + V + b'; mixed e; x = x ' + o + b' x; return x; }') if False else None
+            yield g
+            if t in 'amb' or t == 's':
+                # a second holder must keep the old value (strings and + results are copies; x += y never changes what y denotes)
+                ref2 = None
+                if ref and ref[0] == 'V':
+                    try:
+                        ref2 = ('V', canon([binop(op, v, v) if not (t == 'm' and v) else v, v]))
+                    except (LErr, RefUndef):
+                        ref2 = None
+                if t == 'm':
+                    continue            # += on a mapping changes the mapping in place (documented: a += ([k:v]) is a[k] = v)
+                g = Group('selfop', OPNAME[op] + '-shared', t, ref2, b'y = x; x ' + o + b'= x  (x = ' + V + b')')
+                g.add('assign', b'mixed @F() { mixed x = ' + V + b'; mixed y; y = x; x = x ' + o + b' x; return ({ x, y }); }')
+                g.add('opassign', b'mixed @F() { mixed x = ' + V + b'; mixed y; y = x; x ' + o + b'= x; return ({ x, y }); }')
+                g.add('opassign-y', b'mixed @F() { mixed x = ' + V + b'; mixed y; y = x; x ' + o + b'= y; return ({ x, y }); }')
+                g.add('opassign-global', b'mixed @F() { mixed y; gm = ' + V + b'; y = gm; gm ' + o + b'= gm; return ({ gm, y }); }')
+                yield g
